@@ -49,7 +49,9 @@ fn vpcmp(a: &V, b: &V) -> Option<Ordering> { match (a, b) { (V::None, V::None) =
 
 #[derive(Clone, Debug)]
 enum E { Lit(V), Arr(Vec<E>), Map(Vec<(String, E)>), Var(String), Attr(Box<E>, String, bool), Item(Box<E>, Box<E>, bool), Slice(Box<E>, Option<Box<E>>, Option<Box<E>>, Option<Box<E>>),
-    Neg(Box<E>), Not(Box<E>), Bin(&'static str, Box<E>, Box<E>), Tern(Box<E>, Box<E>, Box<E>), Filt(Box<E>, &'static str, Option<Box<E>>), Test(Box<E>, &'static str, bool), Probe(u64, V), Comp(Box<E>, Box<E>, Option<Box<E>>) }
+    Neg(Box<E>), Not(Box<E>), Bin(&'static str, Box<E>, Box<E>), Tern(Box<E>, Box<E>, Box<E>), Filt(Box<E>, &'static str, Option<Box<E>>), Test(Box<E>, &'static str, bool), Probe(u64, V), Comp(Box<E>, Box<E>, Option<Box<E>>),
+    /// `...e` as an item of an array literal or an entry of a map literal (the key of such an entry is ignored)
+    Spread(Box<E>) }
 
 thread_local! { static TRACE: RefCell<Vec<u64>> = RefCell::new(vec![]); }
 struct Ev<'a> { env: &'a Vec<(String, V)>, trace: Vec<u64>, locals: Vec<(String, V)> }
@@ -57,8 +59,14 @@ type Res = Result<V, ()>;
 impl<'a> Ev<'a> {
     fn lookup(&self, n: &str) -> V { for (k, v) in self.locals.iter().rev() { if k == n { return v.clone(); } } self.env.iter().find(|(k, _)| k == n).map(|(_, v)| v.clone()).unwrap_or(V::Undef) }
     fn ev(&mut self, e: &E) -> Res { Ok(match e {
-        E::Lit(v) => v.clone(), E::Arr(es) => V::Arr(es.iter().map(|x| self.ev(x)).collect::<Result<_, _>>()?),
-        E::Map(es) => { let mut m: Vec<(K, V)> = vec![]; for (k, x) in es { let v = self.ev(x)?; if let Some(p) = m.iter_mut().find(|(k2, _)| *k2 == K::S(k.clone())) { p.1 = v; } else { m.push((K::S(k.clone()), v)); } } V::Map(m) }
+        E::Lit(v) => v.clone(),
+        // items are evaluated left to right; a spread item must be an array, whose elements take its place
+        E::Arr(es) => { let mut vals: Vec<(bool, V)> = vec![]; for x in es { match x { E::Spread(y) => vals.push((true, self.ev(y)?)), x => vals.push((false, self.ev(x)?)) } } let mut out = vec![]; for (sp, v) in vals { if sp { let V::Arr(a) = v else { return Err(()) }; out.extend(a); } else { out.push(v); } } V::Arr(out) }
+        E::Spread(_) => return Err(()),
+        // entries are evaluated left to right; a spread entry must be a map; the rightmost definition of a key wins
+        E::Map(es) => { let mut vals: Vec<(Option<K>, V)> = vec![]; for (k, x) in es { match x { E::Spread(y) => vals.push((None, self.ev(y)?)), x => vals.push((Some(K::S(k.clone())), self.ev(x)?)) } }
+            let mut m: Vec<(K, V)> = vec![]; let mut put = |m: &mut Vec<(K, V)>, k: K, v: V| { if let Some(p) = m.iter_mut().find(|(k2, _)| *k2 == k) { p.1 = v; } else { m.push((k, v)); } };
+            for (k, v) in vals { match k { Some(k) => put(&mut m, k, v), None => { let V::Map(inner) = v else { return Err(()) }; for (k2, v2) in inner { put(&mut m, k2, v2); } } } } V::Map(m) }
         E::Var(n) => self.lookup(n), E::Probe(id, v) => { self.trace.push(*id); v.clone() }
         E::Attr(b, name, opt) => { let base = self.ev(b)?; if *opt && matches!(base, V::Undef | V::None) { V::Undef } else { match base { V::Undef => return Err(()), V::Map(m) => m.iter().find(|(k, _)| *k == K::S(name.clone())).map(|(_, v)| v.clone()).unwrap_or(V::Undef), _ => V::Undef } } }
         E::Item(b, i, opt) => { let base = self.ev(b)?; let idx = self.ev(i)?; if *opt && matches!(base, V::Undef | V::None) { V::Undef } else { if matches!(base, V::Undef) || matches!(idx, V::Undef) { return Err(()); }
@@ -105,7 +113,7 @@ impl<'a> Ev<'a> {
 
 // ---- printing
 fn lvl(op: &str) -> u8 { match op { "or" => 1, "and" => 2, "in" | "not in" => 4, "==" | "!=" | "<" | "<=" | ">" | ">=" => 5, "+" | "-" => 6, "*" | "/" | "//" | "%" | "~" => 7, "**" => 8, _ => unreachable!() } }
-fn prec(e: &E) -> u8 { match e { E::Lit(V::Int(i)) if *i < 0 => 10, E::Lit(V::Float(f)) if *f < 0.0 || (*f == 0.0 && f.is_sign_negative()) => 10, E::Lit(_) | E::Var(_) | E::Arr(_) | E::Map(_) | E::Probe(..) | E::Comp(..) => 12, E::Attr(..) | E::Item(..) | E::Slice(..) => 11, E::Neg(_) => 10, E::Not(_) => 3, E::Bin(op, ..) => lvl(op), E::Tern(..) => 0, E::Filt(..) => 9, E::Test(..) => 4 } }
+fn prec(e: &E) -> u8 { match e { E::Lit(V::Int(i)) if *i < 0 => 10, E::Lit(V::Float(f)) if *f < 0.0 || (*f == 0.0 && f.is_sign_negative()) => 10, E::Lit(_) | E::Var(_) | E::Arr(_) | E::Map(_) | E::Probe(..) | E::Comp(..) | E::Spread(_) => 12, E::Attr(..) | E::Item(..) | E::Slice(..) => 11, E::Neg(_) => 10, E::Not(_) => 3, E::Bin(op, ..) => lvl(op), E::Tern(..) => 0, E::Filt(..) => 9, E::Test(..) => 4 } }
 /// A string literal in one of the three quote styles, with the documented escapes (`\\ \" \' \/ \n \t \r`); the
 /// style is a function of the text so that every spelling of an expression agrees
 fn str_lit(s: &str) -> String {
@@ -139,7 +147,9 @@ impl<'r> P<'r> {
         // the alternative spellings of the constants (True/False, None/null) in the free spelling
         E::Lit(V::Bool(b)) if !self.full && self.r.p(25) => (if *b { "True" } else { "False" }).to_string(), E::Lit(V::None) if !self.full && self.r.p(40) => ["None", "null"][self.r.b(2) as usize].to_string(),
         E::Lit(v) => lit(v), E::Var(n) => n.clone(), E::Probe(id, v) => format!("probe(id={id},{w}v={})", lit(v)),
-        E::Arr(es) => format!("[{}]", es.iter().map(|x| self.pr(x)).collect::<Vec<_>>().join(", ")), E::Map(es) => format!("{{{} }}", es.iter().map(|(k, x)| format!("\"{k}\": {}", self.pr(x))).collect::<Vec<_>>().join(", ")),
+        E::Arr(es) => format!("[{}]", es.iter().map(|x| self.pr(x)).collect::<Vec<_>>().join(", ")), E::Map(es) => format!("{{{} }}", es.iter().map(|(k, x)| if matches!(x, E::Spread(_)) { self.pr(x) } else { format!("\"{k}\": {}", self.pr(x)) }).collect::<Vec<_>>().join(", ")),
+        // everything up to the next `,` or closing bracket belongs to the spread: no parentheses needed
+        E::Spread(a) => format!("...{}", self.wrap(a, false)),
         E::Attr(b, n, o) => format!("{}{}{n}", self.wrap_post(b), if *o { "?." } else { "." }), E::Item(b, i, o) => format!("{}{}{}]", self.wrap_post(b), if *o { "?[" } else { "[" }, self.pr(i)),
         E::Slice(b, s, en, st) => { let mut t = format!("{}[", self.wrap_post(b)); if let Some(x) = s { t += &self.pr(x); } t += ":"; if let Some(x) = en { t += &self.pr(x); } if let Some(x) = st { t += ":"; t += &self.pr(x); } t + "]" }
         E::Neg(a) => { let need = prec(a) < 10 || Self::starts_unary(a); format!("-{}", self.wrap(a, need)) }
@@ -155,7 +165,7 @@ impl<'r> P<'r> {
 }
 // does the tree contain `~` with an rhs that is (or starts with) a unary token — unsupported by the parser even in parens when rhs is a Unary node
 fn bad_tilde(e: &E) -> bool { let mut bad = false; walk(e, &mut |x| if let E::Bin("~", _, b) = x { if matches!(**b, E::Neg(_) | E::Not(_) | E::Bin("not in", ..) | E::Test(_, _, true)) || matches!(**b, E::Lit(V::Int(i)) if i < 0) || matches!(**b, E::Lit(V::Float(f)) if f.is_sign_negative()) { bad = true; } }); bad }
-fn walk(e: &E, f: &mut dyn FnMut(&E)) { f(e); match e { E::Arr(es) => es.iter().for_each(|x| walk(x, f)), E::Map(es) => es.iter().for_each(|(_, x)| walk(x, f)), E::Attr(a, ..) | E::Neg(a) | E::Not(a) | E::Test(a, ..) => walk(a, f), E::Item(a, b, _) | E::Bin(_, a, b) => { walk(a, f); walk(b, f) }
+fn walk(e: &E, f: &mut dyn FnMut(&E)) { f(e); match e { E::Arr(es) => es.iter().for_each(|x| walk(x, f)), E::Map(es) => es.iter().for_each(|(_, x)| walk(x, f)), E::Attr(a, ..) | E::Neg(a) | E::Not(a) | E::Test(a, ..) | E::Spread(a) => walk(a, f), E::Item(a, b, _) | E::Bin(_, a, b) => { walk(a, f); walk(b, f) }
     E::Slice(a, b, c, d) => { walk(a, f); for x in [b, c, d].into_iter().flatten() { walk(x, f); } } E::Tern(a, b, c) => { walk(a, f); walk(b, f); walk(c, f) } E::Filt(a, _, arg) => { walk(a, f); if let Some(x) = arg { walk(x, f); } } E::Comp(a, b, c) => { walk(a, f); walk(b, f); if let Some(x) = c { walk(x, f); } } _ => {} } }
 
 // ---- generation (kind-directed)
@@ -181,8 +191,12 @@ impl<'r> G<'r> {
                 5 | 6 => E::Test(bx(self.g(T::Any, d - 1)), ["defined", "undefined", "string", "number", "integer", "float", "none", "array", "map", "bool", "iterable", "odd", "even"][self.r.b(13) as usize], self.r.p(30)), _ => E::Bin(["and", "or"][self.r.b(2) as usize], bx(self.g(T::Bool, d - 1)), bx(self.g(T::Bool, d - 1))) },
             T::Arr => match self.r.b(6) { 0 => E::Arr((0..self.r.b(3)).map(|_| self.g(T::Any, d - 1)).collect()), 1 => E::Slice(bx(self.g(T::Arr, d - 1)), Some(bx(self.g(T::Num, d - 1))), None, None), 2 => E::Filt(bx(self.g(T::Arr, d - 1)), "reverse", None),
                 3 if !self.in_comp => { self.in_comp = true; let item = self.g(T::Any, d - 1); let cond = if self.r.p(50) { Some(bx(self.g(T::Bool, d - 1))) } else { None }; self.in_comp = false; let target = self.g(T::Arr, d - 1); E::Comp(bx(item), bx(target), cond) }
+                4 => { let n = 1 + self.r.b(3); E::Arr((0..n).map(|_| if self.r.p(60) { E::Spread(bx(self.g(T::Arr, d - 1))) } else { self.g(T::Any, d - 1) }).collect()) }
                 _ => E::Arr(vec![self.g(T::Num, d - 1), self.g(T::Str, d - 1)]) },
-            T::Map => if self.r.p(50) { E::Map(vec![("k".into(), self.g(T::Any, d - 1)), ("n".into(), self.g(T::Num, d - 1))]) } else { self.leaf(T::Map) },
+            T::Map => match self.r.b(4) { 0 | 1 => E::Map(vec![("k".into(), self.g(T::Any, d - 1)), ("n".into(), self.g(T::Num, d - 1))]),
+                // spreads before, between and after plain entries, with keys the spread map has too (`n`, `s`) and keys it has not
+                2 => { let n = 1 + self.r.b(3); E::Map((0..n).map(|_| if self.r.p(50) { (String::new(), E::Spread(bx(self.g(T::Map, d - 1)))) } else { (["n", "s", "k", "zq"][self.r.b(4) as usize].to_string(), self.g(T::Any, d - 1)) }).collect()) }
+                _ => self.leaf(T::Map) },
             T::Any => { let k = [T::Num, T::Str, T::Bool, T::Arr, T::Map][self.r.b(5) as usize]; if self.r.p(25) { E::Tern(bx(self.g(T::Any, d - 1)), bx(self.g(T::Any, d - 1)), bx(self.g(T::Any, d - 1))) } else { self.g(k, d - 1) } } } }
 }
 // a `.`/`?.` base must be an identifier path; an Item/Slice base may be any primary but `?[` only after identifiers. Reject trees our printer can't spell.
@@ -209,12 +223,13 @@ fn op_name(e: &E) -> String {
         E::Test(_, _, neg) => if *neg { "is not".into() } else { "is".into() },
         E::Probe(..) => "call".into(),
         E::Comp(..) => "comprehension".into(),
+        E::Spread(_) => "spread".into(),
     }
 }
 
 fn children(e: &E) -> Vec<(&'static str, &E)> {
     match e {
-        E::Attr(a, ..) | E::Neg(a) | E::Not(a) | E::Test(a, ..) => vec![("operand", a)],
+        E::Attr(a, ..) | E::Neg(a) | E::Not(a) | E::Test(a, ..) | E::Spread(a) => vec![("operand", a)],
         E::Item(a, b, _) => vec![("base", a), ("index", b)],
         E::Bin(_, a, b) => vec![("left", a), ("right", b)],
         E::Tern(c, t, f) => vec![("cond", c), ("then", t), ("else", f)],
@@ -352,6 +367,45 @@ fn truthiness_matrix(cx: &mut Cx) {
     }
 }
 
+/// `?[a:b]` is `?[` too: a none or undefined base gives undefined (testable, defaultable, not printable), any other base is
+/// sliced as usual; without the `?` the same bases are errors.
+fn optional_slice_matrix(cx: &mut Cx, t: &Tera, ctx: &Context) {
+    let bases: [(&str, Option<&str>); 7] = [("nn", None), ("u", None), ("m.nn", None), ("m.zz", None), ("xs", Some("[5, \"x\"]")), ("s", Some("he")), ("m.xs", Some("[0, 1]"))];
+    for (base, sliced) in bases {
+        for (bounds, full) in [("0:2", true), (":2", true), ("0:2:1", true), ("::1", false), ("0:", false)] {
+            let forms: Vec<(String, Result<String, ()>)> = vec![
+                (format!("{{{{ {base}?[{bounds}] is undefined }}}}"), Ok(sliced.is_none().to_string())),
+                (format!("{{{{ {base}?[{bounds}] | default(value=\"D\") }}}}"), match sliced { None => Ok("D".to_string()), Some(x) if full => Ok(x.to_string()), Some(_) => Err(()) }),
+                (format!("{{{{ {base}?[{bounds}] }}}}"), match sliced { None => Err(()), Some(x) if full => Ok(x.to_string()), Some(_) => Err(()) }),
+                (format!("{{{{ {base}[{bounds}] | default(value=\"D\") }}}}"), match sliced { None => Err(()), Some(x) if full => Ok(x.to_string()), Some(_) => Err(()) }),
+                (format!("{{% if {base}?[{bounds}] %}}T{{% else %}}F{{% endif %}}"), Ok(if sliced.is_some() { "T" } else { "F" }.to_string())),
+            ];
+            for (src, exp) in forms {
+                // the unbounded forms are only asserted where the outcome does not depend on the base's length
+                if !full && sliced.is_some() && !src.contains("is undefined") && !src.contains("{% if") {
+                    continue;
+                }
+                cx.eval();
+                cx.count("optional_slice_cells", 1);
+                cx.cell(format!("optional-slice|{base}|{bounds}|{}", if exp.is_ok() { "value" } else { "error" }));
+                match guard(|| t.render_str(&src, ctx, false).map_err(|e| e.to_string())) {
+                    Ok(got) => {
+                        let agree = match (&exp, &got) {
+                            (Ok(a), Ok(b)) => a == b,
+                            (Err(()), Err(_)) => true,
+                            _ => false,
+                        };
+                        if !agree {
+                            cx.violation("C02/optional-slice", format!("{src:?}: the documentation gives {:?}, the engine {:?}", exp.as_ref().map_err(|_| "an error"), got.as_ref().map_err(|e| clip(e, 120))), json!({"source": src}));
+                        }
+                    }
+                    Err(p) => cx.violation(&format!("C02/panic/{}", panic_site(&p)), format!("{src} panicked: {p}"), json!({"source": src})),
+                }
+            }
+        }
+    }
+}
+
 pub fn run(cx: &mut Cx) {
     let mut t = Tera::default();
     t.register_function("probe", |kw: Kwargs, _: &State| -> TeraResult<Value> {
@@ -380,6 +434,7 @@ pub fn run(cx: &mut Cx) {
     for case in cx.my_cases(total) {
         if case == 0 {
             truthiness_matrix(cx);
+            optional_slice_matrix(cx, &t, &ctx);
         }
         let mut r = R(cx.rng(case));
         let (e, family, cellname): (E, &str, Option<String>) = if case < nmatrix {
